@@ -21,7 +21,8 @@ META = {
                    'oracle 1 = PyWavelets with one wavelet per axis (wavedec2/waverec2 with a (column, row) pair), oracle 2 = the library\'s own '
                    'functional lowlevel.afb2d / sfb2d given the same four filters (also with symbolic taps of different lengths, where one run '
                    'covers every filter of those lengths). 2-tuples must act on both axes.',
-    'bounds': {'quick': {'pairs (col,row)': PAIRS_Q, 'modes': MODES, 'shapes': SHAPES_Q, 'J': [1, 2], 'symbolic taps (Lc,Lr)': [(2, 4), (4, 2), (6, 2)]},
+    'bounds': {'added_families': ['contexts nograd / reqgrad / transposed / chlast on 4-tuples (12x13 J=2 C=2; None-level 8x6)', 'axes sharing the lowpass but not the highpass (db2 / neg:db2, neg:bior2.2 / bior2.2)'],
+               'quick': {'pairs (col,row)': PAIRS_Q, 'modes': MODES, 'shapes': SHAPES_Q, 'J': [1, 2], 'symbolic taps (Lc,Lr)': [(2, 4), (4, 2), (6, 2)]},
                'thorough': {'pairs': 'all ordered pairs of 7 wavelets', 'modes': MODES, 'shapes': '10 shapes incl. odd/non-square', 'J': [1, 2, 3]}},
     'outside': 'sizes and pairs beyond the lists; float rounding inside kernels',
     'assumptions': ['real-arithmetic semantics', 'PyWavelets per-axis wavelets are the reference for "column = vertical axis"'],
